@@ -1,6 +1,6 @@
 (* Props/C14.v — the theorems that decide property C14 (caches never change a
    verdict or an answer).  Statements only. *)
-From CKB Require Import Tx.SysCache Tx.SysCacheProofs Tx.Cache Tx.CacheProofs Tx.CacheDaoProofs.
+From CKB Require Import Tx.SysCache Tx.SysCacheProofs Tx.Cache Tx.CacheProofs Tx.CacheDaoProofs Tx.FrozenCache Tx.FrozenCacheProofs.
 
 (* Verdicts, fees, cycles.  [content] (capacity, scripts -> cycles, fee) is a
    function of what the witness hash commits to; [time_relative] stands for
@@ -315,6 +315,58 @@ Theorem c14_group_cost_one_refuted :
   outcome_of (resolve_warm ex_cache ex_provider ex_deps) = OErr 4 0.
 Proof. exact (conj ex_cache_consistent group_cost_one_refuted). Qed.
 
+(* Store read caches in front of a store with a freezer (store/src/store.rs part getters with the
+   get_frozen_block fallback; shared/src/shared.rs freeze + wipe_out_frozen_data): after any history of
+   block writes, freezing of stored blocks, wiping of frozen blocks' part rows, reads on readable blocks
+   and arbitrary evictions, every getter answers the block's content — whatever the caches hold and
+   wherever the parts are now (columns, freezer, or both). *)
+Theorem c14_frozen_cache_transparent :
+  forall (block_of : N -> blockdata) ops s,
+    fcache_ok block_of s -> fguarded block_of s ops ->
+    let s' := frun block_of s ops in
+    fcache_ok block_of s' /\
+    forall h, avail s' h = true ->
+      fst (fget_header block_of s' h) = Some (bd_header (block_of h)) /\
+      fst (fget_uncles block_of s' h) = Some (bd_uncles (block_of h)) /\
+      fst (fget_proposals block_of s' h) = Some (bd_proposals (block_of h)) /\
+      fst (fget_ext block_of s' h) = bd_ext (block_of h) /\
+      fst (fget_txs block_of s' h) = bd_txs (block_of h) /\
+      fst (fget_body block_of s' h) = bd_txs (block_of h) /\
+      fst (fget_block block_of s' h) = Some (whole block_of h).
+Proof. exact frozen_cache_transparent. Qed.
+
+Theorem c14_frozen_cache_cold_ok : forall block_of, fcache_ok block_of empty_fstate.
+Proof. exact empty_fok. Qed.
+
+(* two nodes whose caches and whose placement of a readable block differ answer alike *)
+Theorem c14_freeze_changes_no_answer :
+  forall (block_of : N -> blockdata) s1 s2 h,
+    fcache_ok block_of s1 -> fcache_ok block_of s2 -> avail s1 h = true -> avail s2 h = true ->
+    fst (fget_uncles block_of s1 h) = fst (fget_uncles block_of s2 h) /\
+    fst (fget_proposals block_of s1 h) = fst (fget_proposals block_of s2 h) /\
+    fst (fget_ext block_of s1 h) = fst (fget_ext block_of s2 h) /\
+    fst (fget_txs block_of s1 h) = fst (fget_txs block_of s2 h) /\
+    fst (fget_block block_of s1 h) = fst (fget_block block_of s2 h).
+Proof. exact freeze_changes_no_answer. Qed.
+
+(* non-vacuity: a frozen and wiped block with an extension is readable, guarded, and answered twice *)
+Theorem c14_example_frozen_history :
+  fguarded ex_block_of empty_fstate (ex_fz_history ++ [FGetExt 5; FGetExt 5; FGetBlock 5]) /\
+  let s := frun ex_block_of empty_fstate ex_fz_history in
+  let (a1, s1) := fget_ext ex_block_of s 5 in
+  let (a2, _) := fget_ext ex_block_of s1 5 in
+  a1 = Some 8%N /\ a2 = Some 8%N /\ avail s 5 = true.
+Proof. exact (conj ex_fz_guarded ex_fz_answers). Qed.
+
+(* were the column's answer cached before the freezer fallback is applied, the second read of a frozen
+   block's extension would be served the negative entry *)
+Theorem c14_late_fallback_refuted :
+  let s := frun ex_block_of empty_fstate ex_fz_history in
+  let (a1, s1) := fget_ext_late ex_block_of s 5 in
+  let (a2, _) := fget_ext_late ex_block_of s1 5 in
+  avail s 5 = true /\ a1 = bd_ext (ex_block_of 5) /\ a2 = None /\ a2 <> bd_ext (ex_block_of 5).
+Proof. exact late_fallback_refuted. Qed.
+
 Redirect "out/C14.c14_verdict_cache_transparent" Print Assumptions c14_verdict_cache_transparent.
 Redirect "out/C14.c14_cache_sound_invariant" Print Assumptions c14_cache_sound_invariant.
 Redirect "out/C14.c14_hit_requires_same_wtx" Print Assumptions c14_hit_requires_same_wtx.
@@ -348,3 +400,8 @@ Redirect "out/C14.c14_dao_size_block_history_transparent" Print Assumptions c14_
 Redirect "out/C14.c14_pool_hit_skips_dao_size_refuted" Print Assumptions c14_pool_hit_skips_dao_size_refuted.
 Redirect "out/C14.c14_example_dao_history_ok" Print Assumptions c14_example_dao_history_ok.
 Redirect "out/C14.c14_example_dao_history" Print Assumptions c14_example_dao_history.
+Redirect "out/C14.c14_frozen_cache_transparent" Print Assumptions c14_frozen_cache_transparent.
+Redirect "out/C14.c14_frozen_cache_cold_ok" Print Assumptions c14_frozen_cache_cold_ok.
+Redirect "out/C14.c14_freeze_changes_no_answer" Print Assumptions c14_freeze_changes_no_answer.
+Redirect "out/C14.c14_example_frozen_history" Print Assumptions c14_example_frozen_history.
+Redirect "out/C14.c14_late_fallback_refuted" Print Assumptions c14_late_fallback_refuted.
